@@ -119,6 +119,7 @@ func Serve(cfg ServerConfig, client func(addr string)) ([]AcceptResult, error) {
 	done := make(chan struct{})
 	go func() {
 		defer close(done)
+		nonTemp := 0
 		for {
 			r := AcceptOnce(ln)
 			if r.Closed {
@@ -127,8 +128,14 @@ func Serve(cfg ServerConfig, client func(addr string)) ([]AcceptResult, error) {
 			mu.Lock()
 			results = append(results, r)
 			mu.Unlock()
+			// a non-temporary error would make an application stop accepting;
+			// the harness keeps going so that the case can be judged and the
+			// client side never waits for a listener that went away
 			if r.Err != nil && !r.Temporary && r.Panic == "" {
-				return
+				nonTemp++
+				if nonTemp > 50 {
+					return
+				}
 			}
 		}
 	}()
